@@ -45,6 +45,7 @@ CONSTANTS Params,     \* set of [nslots, nstat, tracked, eps] explored
           Vals,       \* observation grid (integers)
           MaxB,       \* largest batch
           MaxRows,    \* bound on training rows per wrapper (state constraint is built into Act)
+          Ops,        \* operations explored by Next (subset of {"act","learn","mode","clone","save","load","loadnew"})
           Variant     \* "chan"  : the code's recursive batched update
                       \* "closed": the definition (moments of everything seen); used for long recorded histories
                       \* "naive" : negative control (weighted average of batch variances, no between-batch term)
@@ -210,13 +211,14 @@ RECURSIVE Batches(_)
 Batches(k) == IF k = 0 THEN {} ELSE [1..k -> Rows] \cup Batches(k - 1)
 
 Next ==
-  \/ \E a \in Slots, b \in Batches(MaxB) : Act(a, b, FALSE)
-  \/ \E a \in Slots, r \in Rows : Act(a, <<r>>, TRUE)
-  \/ \E a \in Slots, r \in Rows, r2 \in Rows : Learn(a, <<r>>, <<r2>>)
-  \/ \E a \in Slots, t \in BOOLEAN : SetMode(a, t)
-  \/ \E a \in Slots, b \in Slots : Clone(a, b, ag[a].training)
-  \/ \E a \in Slots : Save(a)
-  \/ \E b \in Slots : Load(b, ckpt.training) \/ LoadNew(b, ckpt.training)
+  \/ "act" \in Ops /\ \E a \in Slots, b \in Batches(MaxB) : Act(a, b, FALSE)
+  \/ "act" \in Ops /\ \E a \in Slots, r \in Rows : Act(a, <<r>>, TRUE)
+  \/ "learn" \in Ops /\ \E a \in Slots, r \in Rows, r2 \in Rows : Learn(a, <<r>>, <<r2>>)
+  \/ "mode" \in Ops /\ \E a \in Slots, t \in BOOLEAN : SetMode(a, t)
+  \/ "clone" \in Ops /\ \E a \in Slots, b \in Slots : ag[a].alive /\ Clone(a, b, ag[a].training)
+  \/ "save" \in Ops /\ \E a \in Slots : Save(a)
+  \/ "load" \in Ops /\ ckpt.alive /\ \E b \in Slots : Load(b, ckpt.training)
+  \/ "loadnew" \in Ops /\ ckpt.alive /\ \E b \in Slots : LoadNew(b, ckpt.training)
 
 Spec == Init /\ [][Next]_vars
 
